@@ -237,6 +237,8 @@ pub async fn connect_from(src_ip: &str, dst: SocketAddr) -> std::io::Result<TcpS
     let src: SocketAddr = format!("{src_ip}:0").parse().unwrap();
     let sock = if src.is_ipv4() { tokio::net::TcpSocket::new_v4()? } else { tokio::net::TcpSocket::new_v6()? };
     sock.bind(src)?;
+    // a small fixed receive buffer: a peer that stops reading blocks the server's writes quickly
+    let _ = sock.set_recv_buffer_size(8192);
     match tokio::time::timeout(STEP_TIMEOUT, sock.connect(dst)).await {
         Ok(r) => r,
         Err(_) => Err(std::io::Error::from(std::io::ErrorKind::TimedOut)),
